@@ -25,12 +25,12 @@ def _core(pid, text, design):
 
 CORE = {
  "C01": ("Lean theorems: generation-checked slot lookup is sound (lookup_sound), a previous occupant's key is unroutable after reuse (stale_key_unroutable, below 2^16 reuses), reuse does not affect other slots, only vacant slots are handed out, the poller model reports only registered keys with requested readiness, the Generic gate accepts only the source's own (sub-)token.", "§6 C01"),
- "C02": ("Lean theorems: readiness existing at registration or arriving later queues the poller entry, a ready level entry is reported and re-queued on every wait, Poll::poll leaves no expired timer behind (for every wheel and instant), the channel drain budget is >= 1 and an exhausted budget re-pings.", "§6 C02"),
+ "C02": ("Lean theorems: readiness existing at registration or arriving later queues the poller entry, a ready level entry is reported and re-queued on every wait, Poll::poll leaves no expired timer behind (for every wheel and instant), the channel drain budget is >= 1 and an exhausted budget re-pings. Causes produced on other threads (ping, channel message/close, woken task) are covered by the wake invariants of PingProto / ChanProto / ExecProto (theorems of C03/C04/C10) and by running those monitors' 'pending cause => reported' clauses on controlled schedules and uncontrolled channel races of the real crate.", "§6 C02"),
  "C05": ("Lean theorems about the timer wheel for every wheel and instant: what a poll pops is due, in non-decreasing deadline order and complete (poll_pops_exactly_the_due_in_order), next_expired is never early and earliest-first, cancel removes the arming and only it, counters are fresh.", "§6 C05"),
  "C06": ("Lean theorems: after removal the token resolves to a vacant slot (token ops answer InvalidToken, remove is a no-op), after reuse it does not resolve at all, for any number of reuses below 2^16; C06_wrap_false proves the unrestricted claim false at exactly 2^16 reuses (finding F12, replayed on the real loop with 65536 insert/remove cycles).", "§6 C06"),
- "C07": ("Lean theorems: an unregistered Generic rejects every event (also those already collected), a timer without registration or with its current arming still in the wheel does not fire, DEL removes the fd from table and ready list and nothing else, and does not consume the eventfd counter (readiness survives).", "§6 C07"),
+ "C07": ("Lean theorems: an unregistered Generic rejects every event (also those already collected), a timer without registration or with its current arming still in the wheel does not fire, DEL removes the fd from table and ready list and nothing else, and does not consume the eventfd counter (readiness survives); over the whole loop model (Verif.Inv.Ctl): a disable/update issued outside event processing (top level, idle callbacks) acts at once and leaves nothing deferred (top_level_requests_are_immediate), and nothing deferred survives the event it was requested in (so it cannot reach another source).", "§6 C07"),
  "C08": ("Lean theorems about the dispatcher cell: disable/update aimed at the running source return 'deferred' with the state untouched (no borrow, no panic); register (enable) of the running source is the one panicking call = the documented exclusion.", "§6 C08"),
- "C09": ("Lean theorems: the | and |= tables for all 16 pairs about the definitions regenerated from src/sources/mod.rs on every run (plus commutativity, idempotence, associativity), and the resolution of returned action vs deferred request (explicit non-Continue wins).", "§6 C09"),
+ "C09": ("Lean theorems: the | and |= tables for all 16 pairs about the definitions regenerated from src/sources/mod.rs on every run (plus commutativity, idempotence, associativity), the resolution of returned action vs deferred request (explicit non-Continue wins), and — over the WHOLE loop model, by a Hoare logic for its exception-state monad (Verif.Inv.Ctl) — pending_clear_after_every_event (for every event, loop state and callback program, incl. self-disable/update, removal, slot reuse and errors, one iteration of dispatch_events ends with pending_action = Continue and no dispatcher borrowed or held) and pending_clear_after_every_history (the same after every sequence of operations, scripts and dispatches): a post action is never carried over to a later event.", "§6 C09"),
  "C13": ("Lean theorems about dispatch_idles: the queue is taken (emptied) before the first callback, so idles inserted by idles go to the next dispatch; the snapshot is walked in order; a cancelled entry is a no-op; dropping the handle does not cancel.", "§6 C13"),
  "C14": ("Lean theorems about the additional-lifecycle set: registration idempotent and duplicate-free (finding F1's fix), unregistration removes exactly the token, a duplicate-free list is walked once per token, before_handle_events is given own-source events only.", "§6 C14"),
  "C15": ("Lean theorems: a slot handed out and vacated again leaks nothing (occupied count and every other slot's lookup unchanged), the batch loop processes every event and keeps the first error.", "§6 C15"),
@@ -64,7 +64,7 @@ CLAIMED["C12"] = dict(
    design="§6 C12")
 
 CLAIMED["C11"] = dict(
-   text="Lean 4 theorems about SignalProto (any number of stopping / waking threads, every interleaving of flag accesses, notify, entering and leaving the wait; run and block_on) from a 22-clause inductive invariant: stopped_only_if_requested, stop_then_next_check_exits (at most the iteration in progress finishes), stop_wakeup_wait_returns (stop then wakeup never leaves the loop blocked), wakeup_makes_wait_return + only_wait_return_consumes_wakeup (a wake-up issued before the loop blocks is not lost), block_on_polls_initially, block_on_wake_not_lost, block_on_wake_keeps_flag, swap_polls, block_on_result (Some iff the future completed, None iff stop first). The real run()/block_on() are executed under controlled thread schedules with yield points at every flag access and around the poller wait (a blocked loop thread is recognised through its kernel state) and compared step by step with the model.",
+   text="Lean 4 theorems about SignalProto (any number of stopping / waking threads, every interleaving of flag accesses, notify, entering and leaving the wait; run and block_on) from a 22-clause inductive invariant: stopped_only_if_requested, stop_then_next_check_exits (at most the iteration in progress finishes), stop_wakeup_wait_returns (stop then wakeup never leaves the loop blocked), wakeup_makes_wait_return + only_wait_return_consumes_wakeup (a wake-up issued before the loop blocks is not lost), block_on_polls_initially, block_on_wake_not_lost, block_on_wake_keeps_flag, swap_polls, wake_during_poll_not_lost (the flag swap and the poll are separate steps: a wake landing while the future is being polled, from another thread or from the future itself, is followed by another poll), block_on_result (Some iff the future completed, None iff stop first). The real run()/block_on() are executed under controlled thread schedules with yield points at every flag access and around the poller wait (a blocked loop thread is recognised through its kernel state) and compared step by step with the model.",
    note="Trusted: Lean kernel + standard axioms; Poller::notify by its documented contract (sticky flag); SeqCst-like atomics; yield-point hooks + scheduler harness; schedules sampled. 'Promptly' is not timed (the wait returning is what is checked/proved). Liveness as safety: wake-obligation invariants + enabledness, no fairness axiom.",
    technique="Lean 4 inductive invariant over an unbounded-thread LTS + schedule-controlled correspondence with the real crate",
    design="§6 C11")
@@ -76,7 +76,7 @@ CLAIMED["C10"] = dict(
    design="§6 C10")
 
 CLAIMED["C17"] = dict(
-   text="Lean 4 theorems about AsyncProto (one direction of one adapter: task, one-shot registration, peer; every chunking and every placement of the loop's reports) from an inductive invariant: conservation (read + held = written), no_lost_wake (a parked task with a ready fd has its registration armed and queued, so the next wait wakes it — including progress made between the WouldBlock and the arming, which the MOD re-evaluates), parked_is_armed, task_state_exclusive, flags_and_registration (non-blocking while alive; previous mode restored and nothing left in the poller after drop / into_inner). Real transfers over socketpairs (reader and writer tasks on the calloop executor, chunk sizes 1..200000, totals up to 700000 bytes so that the socket buffer fills) are judged by the same clauses and compared with the model at quiescent points.",
+   text="Lean 4 theorems about AsyncProto (one direction of one adapter: task, one-shot registration, peer; every chunking and every placement of the loop's reports) from an inductive invariant: conservation (read + held = written), no_lost_wake (a parked task with a ready fd has its registration armed and queued, so the next wait wakes it — including progress made between the WouldBlock and the arming, which the MOD re-evaluates), parked_is_armed, parked_waker_is_current (a wait polled under one waker and, before the fd is ready, under another wakes the last one), task_state_exclusive, flags_and_registration (non-blocking while alive; previous mode restored and nothing left in the poller after drop / into_inner). Real transfers over socketpairs (reader and writer tasks on the calloop executor, chunk sizes 1..200000, totals up to 700000 bytes so that the socket buffer fills) are judged by the same clauses and compared with the model at quiescent points.",
    note="PARTIAL: the byte transport is the kernel's; content and order are checked on real runs with a position-dependent pattern, not proved. The send-buffer size is not modelled (large writes are judged by the clauses only). Single waiter per adapter (the &mut self API). Trusted: Lean kernel + standard axioms, one-shot epoll semantics as modelled.",
    technique="Lean 4 inductive invariant over a small LTS + differential runs of the real adapter over socketpairs",
    design="§6 C17")
